@@ -13,16 +13,17 @@ import (
 )
 
 type CheckConfig struct {
-	Property      string            `json:"property"`
-	Functions     []string          `json:"functions"`
-	LockFunctions []string          `json:"lock_functions"`
-	Lemmas        []string          `json:"lemmas"`
-	Required      []string          `json:"required_names"` // obligation names that must be generated (vacuity guard)
-	Assumptions   []string          `json:"assumptions"`
-	Explanation   string            `json:"explanation"`
-	Bounded       []BoundedCheck    `json:"bounded"`
-	Replay        map[string]*ReplaySpec `json:"replay"` // function key -> replay harness
-	Sweep         []string          `json:"sweep"`  // thorough: zero-annotation no-panic sweep over functions with this key prefix
+	Property      string                 `json:"property"`
+	Functions     []string               `json:"functions"`
+	LockFunctions []string               `json:"lock_functions"`
+	Lemmas        []string               `json:"lemmas"`
+	Required      []string               `json:"required_names"` // obligation names that must be generated (vacuity guard)
+	Assumptions   []string               `json:"assumptions"`
+	Explanation   string                 `json:"explanation"`
+	Bounded       []BoundedCheck         `json:"bounded"`
+	Replay        map[string]*ReplaySpec `json:"replay"`     // function key -> replay harness
+	SkipNames     []string               `json:"skip_names"` // labelled obligations of OTHER properties on shared functions: decided by that property's check, not here
+	Sweep         []string               `json:"sweep"`      // thorough: zero-annotation no-panic sweep over functions with this key prefix
 }
 
 type BoundedCheck struct {
@@ -160,6 +161,21 @@ func cmdCheck(args []string) {
 		tsr := E.TS
 		if r.TS != nil {
 			tsr = r.TS
+		}
+		if len(cfg.SkipNames) > 0 {
+			var keep []*Obligation
+			for _, o := range r.Obls {
+				skip := false
+				for _, n := range cfg.SkipNames {
+					if o.Name == n {
+						skip = true
+					}
+				}
+				if !skip {
+					keep = append(keep, o)
+				}
+			}
+			r.Obls = keep
 		}
 		tmo := timeout
 		if r.TS != nil && tmo < 60 {
@@ -404,26 +420,26 @@ func cmdCheck(args []string) {
 		expl = fmt.Sprintf("%d of %d obligations discharged; the rest are listed under known_findings_hit / violations. ", discharged, len(all)) + expl
 	}
 	cov := map[string]any{
-		"obligations":          len(all),
-		"discharged":           discharged,
-		"checker_cmd":          fmt.Sprintf("/verif/check.sh %s %s", id, tier),
-		"trusted_base":         tb,
-		"explanation":          expl,
-		"functions_under_contract": fnList,
-		"obligation_list":      evObls,
-		"backends":             backends,
-		"solver_secs":          round3(solverSecs),
-		"samples":              samples,
-		"known_findings_hit":   knownHit,
-		"bounded_checks":       bounded,
-		"inlined_callees":      inlined,
+		"obligations":                   len(all),
+		"discharged":                    discharged,
+		"checker_cmd":                   fmt.Sprintf("/verif/check.sh %s %s", id, tier),
+		"trusted_base":                  tb,
+		"explanation":                   expl,
+		"functions_under_contract":      fnList,
+		"obligation_list":               evObls,
+		"backends":                      backends,
+		"solver_secs":                   round3(solverSecs),
+		"samples":                       samples,
+		"known_findings_hit":            knownHit,
+		"bounded_checks":                bounded,
+		"inlined_callees":               inlined,
 		"goroutine_spawns_not_followed": uniq(spawns),
-		"engine_warnings":      E.Warnings,
-		"contract_files":       E.Specs.Files,
-		"two_solver_agreement": tier == "thorough",
-		"evaluations":          len(all),
-		"distinct_nontrivial":  countNontrivial(all),
-		"rule":                 "one SMT query per generated obligation; non-trivial = not settled by the term simplifier alone",
+		"engine_warnings":               E.Warnings,
+		"contract_files":                E.Specs.Files,
+		"two_solver_agreement":          tier == "thorough",
+		"evaluations":                   len(all),
+		"distinct_nontrivial":           countNontrivial(all),
+		"rule":                          "one SMT query per generated obligation; non-trivial = not settled by the term simplifier alone",
 	}
 	if tier == "thorough" {
 		cov["sweep"] = map[string]any{"prefixes": cfg.Sweep, "obligations": sweepN, "not_discharged": sweepBad, "notes": sweepNotes, "label": "informational zero-annotation safety sweep; not part of the claim"}
